@@ -29,15 +29,25 @@ def gen_case(ctx, i):
     model = ["single", "topdown", "bottomup"][i % 3]
     sizes = [(int(r.integers(150, 230)), int(r.integers(160, 234))), (int(r.integers(140, 200)), int(r.integers(150, 234)))]
     F = int(r.integers(3, 9)) if ctx.tier == "thorough" else int(r.integers(3, 6))
+    big = (i % 12 == 8)  # a bottom-up batch with more frames than any side of the PAF grid (small frames, stride 4): 34-44 frames in one batch
+    if big:
+        sizes = [(96, 112), (96, 112)]
+        F = int(r.integers(34, 45))
     frames = []
     for k in range(F):
         v = int(r.integers(0, 2))
         n_an = 1 if model == "single" else int(r.choice([0, 1, 2, 3, 4], p=[0.2, 0.2, 0.25, 0.2, 0.15]))
         if model == "single" and r.random() < 0.2:
             n_an = 0
+        if big:
+            n_an = int(r.choice([0, 1, 1]))
         frames.append({"video": v, "n_animals": n_an})
+    mi = [None, None, 1, 2, 3][int(r.integers(0, 5))] if model == "topdown" else None
+    ties = bool(mi is not None and not big and r.random() < 0.4)  # equally confident animals across the max_instances cut
+    if ties:
+        sizes = [sizes[0], sizes[0]]  # no rescaling: centroids can sit exactly on grid cells
     return {"i": i, "model": model, "sizes": sizes, "frames": frames, "refinement": [None, "integral"][int(r.integers(0, 2))], "seed": int(r.integers(0, 2 ** 31)),
-            "max_instances": [None, None, 1, 2, 3][int(r.integers(0, 5))] if model == "topdown" else None, "stride": int(r.choice([2, 4])), "n_nodes": 3}
+            "max_instances": mi, "ties": ties, "stride": 4 if big else int(r.choice([2, 4])), "n_nodes": 3, "big": big}
 
 
 def directed(ctx):
@@ -64,7 +74,19 @@ def build(case, name):
         keys.append((v, f))
     vids = [(case["sizes"][v][0], case["sizes"][v][1], max(counts[v], 1)) for v in (0, 1)]
     edges = [(0, 1), (1, 2)] if case["model"] == "bottomup" else None
-    return e2e.SceneFiles("C12", name, vids, case["n_nodes"], edges, poses), keys
+    if case.get("ties"):  # centroids exactly on cells of the centroid grid, so that equal amplitudes give exactly equal peak values
+        st = case["stride"]
+        for P in poses.values():
+            for p in P:
+                c = on.centroid_of(p, None)
+                p += np.round(c / st) * st - c
+    sf = e2e.SceneFiles("C12", name, vids, case["n_nodes"], edges, poses)
+    if case.get("ties"):
+        for key in keys:
+            code = sf.code_of[key]
+            n = len(sf.scene.poses[code])
+            sf.scene.amplitude[code] = [1.0, 0.75, 0.75, 0.75, 0.75][:n] if n else []
+    return sf, keys
 
 
 def make_pred(case, sf, batch, log):
@@ -76,18 +98,21 @@ def make_pred(case, sf, batch, log):
     elif case["model"] == "topdown":
         pred, _, _ = e2e.topdown_predictor(sf, case["stride"], 2, 1.5, 1.0, 1.0, max_hw, 16, 64, batch, case["refinement"], None, case["max_instances"], log)
     else:
-        pred, _ = e2e.bottomup_predictor(sf, case["stride"], case["stride"], 0.75, max(1.5 * case["stride"], 3.0), 1.0, max_hw, 16, batch, case["refinement"], log)
+        # the library's default edge-length ratio (0.25): in the small frames of the big-batch cases the longer limbs get a distance penalty
+        pred, _ = e2e.bottomup_predictor(sf, case["stride"], case["stride"], 0.75, max(1.5 * case["stride"], 3.0), 1.0, max_hw, 16, batch, case["refinement"], log, max_edge_length_ratio=0.25)
     return pred, max_hw
 
 
-def collect(case, outs):
+def collect(case, outs, scores=None):
     """{(video, frame): sorted list of instance point arrays (n_nodes,2)} using the indices the records carry."""
     by = {}
     n = case["n_nodes"]
     for o in outs:
         if case["model"] == "bottomup":
-            for vi, fi, inst in zip(o["video_idx"], o["frame_idx"], o["pred_instance_peaks"]):
+            for vi, fi, inst, sc in zip(o["video_idx"], o["frame_idx"], o["pred_instance_peaks"], o["instance_scores"]):
                 by.setdefault((int(vi), int(fi)), []).extend(list(np.asarray(inst, float).reshape(-1, n, 2)))
+                if scores is not None:
+                    scores.setdefault((int(vi), int(fi)), []).extend(np.asarray(sc, float).reshape(-1).tolist())
         elif case["model"] == "single":
             for vi, fi, pk in zip(o["video_idx"], o["frame_idx"], o["pred_instance_peaks"]):
                 by.setdefault((int(vi), int(fi)), []).append(np.asarray(pk, float))
@@ -128,7 +153,8 @@ def check(ctx, case):
         pred, max_hw = make_pred(case, sf, 1, log)
         ref_path = sf.write_labels(keys, "ref.slp")
         try:
-            ref = collect(case, e2e.run(pred, "LabelsReader", sf, labels_path=ref_path))
+            ref_scores = {}
+            ref = collect(case, e2e.run(pred, "LabelsReader", sf, labels_path=ref_path), ref_scores)
         except Exception as e:
             import traceback
 
@@ -164,6 +190,20 @@ def check(ctx, case):
                     order = np.argsort(-np.array(amps[: len(poses)]))[: case["max_instances"]]
                     want = [poses[j] for j in sorted(order)]
                     ctx.count("capped_frames")
+                    cut = sorted(amps[: len(poses)], reverse=True)[case["max_instances"] - 1]
+                    if sum(1 for a_ in amps[: len(poses)] if a_ >= cut) > case["max_instances"]:
+                        # a tie across the cut: exactly max_instances records, all of amplitude >= the cut value, every animal above it kept
+                        ctx.count("capped_frames_with_tie_at_cut")
+                        if len(got) != case["max_instances"]:
+                            ctx.violation("cap-not-applied", f"topdown: frame {key} yields {len(got)} instances with max_instances={case['max_instances']} (amplitudes {amps[:len(poses)]}, tie at the cut)", small)
+                            continue
+                        kept = []
+                        for q in got:
+                            d = [np.nanmax(np.abs(q - g)) for g in poses]
+                            kept.append(int(np.argmin(d)) if min(d) <= tol + 1e-6 else None)
+                        if None in kept or len(set(kept)) != len(kept) or any(amps[j] < cut for j in kept) or any(amps[j] > cut and j not in kept for j in range(len(poses))):
+                            ctx.violation("cap-keeps-wrong-instances", f"topdown: frame {key}: kept animals {kept} for amplitudes {amps[:len(poses)]} and max_instances={case['max_instances']}", small)
+                        continue
                 if case["model"] == "bottomup":
                     want = [p for p in poses]  # every animal is fully visible and connected in these scenes
                 if len(got) != len(want):
@@ -185,17 +225,23 @@ def check(ctx, case):
         perms = list(itertools.permutations(range(F))) if F <= 4 else [tuple(r.permutation(F)) for _ in range(6)]
         if ctx.tier == "quick" and len(perms) > 5:
             perms = [perms[j] for j in r.choice(len(perms), 5, replace=False)]
+        if case.get("big"):
+            perms = perms[:2]
         mixed = False
         for pi, perm in enumerate(perms):
             batch = int(r.integers(2, 6))
             order = [keys[j] for j in perm]
+            if case.get("big") and pi == 0:
+                batch = len(order)  # every frame in one batch
+                ctx.count("big_batches")
             if pi % 3 == 2 and F > 2:  # different composition: drop a frame
                 order = order[:-1]
             path = sf.write_labels(order, f"perm{pi}.slp")
             log = []
             pred, _ = make_pred(case, sf, batch, log)
             try:
-                got = collect(case, e2e.run(pred, "LabelsReader", sf, labels_path=path))
+                got_scores = {}
+                got = collect(case, e2e.run(pred, "LabelsReader", sf, labels_path=path), got_scores)
             except Exception as e:
                 import traceback
 
@@ -211,6 +257,12 @@ def check(ctx, case):
                 if not same_sets(a, b):
                     ctx.violation("batch-dependence", f"{case['model']}: frame {key} gives {len(b)} instances in a batch of {batch} (order {order}) but {len(a)} alone, or different coordinates", small)
                     break
+                sa, sb = sorted(ref_scores.get(key, [])), sorted(got_scores.get(key, []))
+                if case["model"] == "bottomup":
+                    ctx.count("instance_score_comparisons")
+                    if len(sa) != len(sb) or (sa and np.abs(np.array(sa) - np.array(sb)).max() > 1e-4):
+                        ctx.violation("batch-dependence", f"bottomup: instance scores of frame {key} are {np.round(sb, 4).tolist()} in a batch of {batch} but {np.round(sa, 4).tolist()} alone", small)
+                        break
             extra = set(got) - set(order)
             if extra:
                 ctx.violation("record-for-unknown-frame", f"{case['model']}: records carry indices {sorted(extra)} that were not in the batch", small)
@@ -284,6 +336,8 @@ def finalize(ctx):
     ctx.require("reference_runs", 6)
     ctx.require("variant_runs", 12)
     ctx.require("frame_comparisons", 40)
+    ctx.require("big_batches", 1)
+    ctx.require("capped_frames_with_tie_at_cut", 1)
 
 
 LEVEL_TEXT = ("The three real predictors run the same coordinate-coded frames one per batch and in batches of other sizes, compositions and orders (permuted labels files over two videos "
